@@ -47,6 +47,10 @@ type ostep struct {
 	// NoWait: the script goes on with the next step at once, without bringing the bubble to rest first (the next
 	// step then races this one, e.g. a parent cancel issued concurrently with the RLock call)
 	NoWait bool `json:"nowait,omitempty"`
+	// rlock: the release func is called a second time - at once (Twice) and/or Again ms after the release (a
+	// deferred call after an explicit one; the second call must be a no-op)
+	Twice bool `json:"twice,omitempty"`
+	Again int  `json:"again,omitempty"`
 }
 
 type scenario struct {
